@@ -13,12 +13,11 @@ Record RG (st : state) : Prop := {
   rg_tsubs : forall t s, In s (t_subs (trigs st t)) ->
              In (t_key (trigs st t), t) (reg st) /\ In s (byid st) /\ s_tid (subs st s) = t;
   rg_nd_byid : NoDup (byid st);
-  rg_nd_tsubs : forall t, NoDup (t_subs (trigs st t));
-  rg_shut : shut st = true -> reg st = [] }.
+  rg_nd_tsubs : forall t, NoDup (t_subs (trigs st t)) }.
 
 (* the part of the state RG talks about *)
 Definition reg_eq (st st' : state) : Prop :=
-  shut st' = shut st /\ reg st' = reg st /\ byid st' = byid st /\ allsubs st' = allsubs st /\ ntrig st' = ntrig st /\
+  reg st' = reg st /\ byid st' = byid st /\ allsubs st' = allsubs st /\ ntrig st' = ntrig st /\
   (forall s, s_key (subs st' s) = s_key (subs st s) /\ s_tid (subs st' s) = s_tid (subs st s) /\
              s_removed (subs st' s) = s_removed (subs st s)) /\
   (forall t, t_key (trigs st' t) = t_key (trigs st t) /\ t_subs (trigs st' t) = t_subs (trigs st t)).
@@ -28,7 +27,7 @@ Proof. unfold reg_eq; intros; repeat split; auto. Qed.
 
 Lemma RG_ext : forall st st', reg_eq st st' -> RG st -> RG st'.
 Proof.
-  intros st st' (Hs & Hr & Hb & Ha & Hn & Hsub & Htr) H. destruct H.
+  intros st st' (Hr & Hb & Ha & Hn & Hsub & Htr) H. destruct H.
   constructor.
   - rewrite Hr; auto.
   - intros k t Hin. rewrite Hr in Hin. destruct (Htr t) as [-> ->]. rewrite Hn. auto.
@@ -38,7 +37,6 @@ Proof.
     rewrite Hr, Hb. auto.
   - rewrite Hb; auto.
   - intros t. destruct (Htr t) as [_ ->]. auto.
-  - rewrite Hs, Hr; auto.
 Qed.
 
 Ltac reg_eq_tac :=
@@ -163,7 +161,6 @@ Proof.
     + intros t'. destruct (Nat.eq_dec t' t) as [->|Hne].
       * rewrite upd_same. simpl. constructor.
       * rewrite upd_other by auto. apply (rg_nd_tsubs _ H).
-    + intros Hs. rewrite (rg_shut _ H Hs). auto.
   - constructor; simpl.
     + apply (rg_keys _ H).
     + intros k' t' Hi. destruct (rg_ent _ H _ _ Hi) as (A & B & C).
@@ -189,7 +186,6 @@ Proof.
     + intros t'. destruct (Nat.eq_dec t' t) as [->|Hne].
       * rewrite upd_same. cbn [t_subs trg_set_subs]. rewrite <- El. apply NoDup_rem, (rg_nd_tsubs _ H).
       * rewrite upd_other by auto. apply (rg_nd_tsubs _ H).
-    + apply (rg_shut _ H).
 Qed.
 
 Lemma RG_remove_locked : forall st s st' r, RG st -> remove_locked st s = (st', r) -> RG st'.
@@ -237,9 +233,230 @@ Proof.
         -- subst. rewrite (proj2 (mem_nIn x l) H1). rewrite Nat.eqb_refl. simpl. auto.
         -- destruct (Nat.eqb_spec x a); [congruence|]. simpl. auto.
       * rewrite Hby. unfold rem. rewrite filter_filter. apply filter_ext. intros x.
-        rewrite (Nat.eqb_sym a x). destruct (x =? a); simpl; auto.
+        unfold mem; simpl. destruct (x =? a); simpl; auto.
       * rewrite Hlog. simpl. rewrite <- app_assoc. reflexivity.
     + intros s Hs. simpl. destruct (Hall s (or_intror Hs)) as [A B].
       assert (s <> a) by (intro; subst; tauto).
       split; [apply In_rem; auto| rewrite upd_other; auto].
 Qed.
+
+Lemma detach_locked_spec : forall st t st' r, RG st -> In (t_key (trigs st t), t) (reg st) ->
+  detach_locked st t = (st', r) ->
+  let l := t_subs (trigs st t) in
+  r = {| rr_n := length l; rr_close := l; rr_cancel := [t]; rr_dec := if t_init (trigs st t) then 1 else 0 |} /\
+  reg st' = unreg_key (t_key (trigs st t)) (reg st) /\
+  trigs st' = upd (trigs st) t (trg_set_subs (trigs st t) []) /\
+  same_frame st st' /\
+  (forall x, subs st' x = if mem x l then sub_set_removed (subs st x) else subs st x) /\
+  byid st' = filter (fun x => negb (mem x l)) (byid st) /\
+  log st' = rev (map GRemoved l) ++ log st.
+Proof.
+  intros st t st' r H Hreg Hd l. unfold detach_locked in Hd. fold l in Hd.
+  destruct (detach_subs st l) as [st1 cl] eqn:E.
+  apply detach_subs_spec in E.
+  - destruct E as (-> & Hr & Ht & Hsf & Hsub & Hby & Hlog). inversion Hd; subst; clear Hd. simpl.
+    rewrite Hr, Ht. split; [auto|]. split; [auto|]. split; [auto|].
+    split; [destruct Hsf as (?&?&?&?&?); unfold same_frame; simpl; auto|]. auto.
+  - apply (rg_nd_tsubs _ H).
+  - intros s Hs. destruct (rg_tsubs _ H _ _ Hs) as (A & B & C). split; auto. apply (rg_byid _ H s B).
+Qed.
+
+Lemma RG_detach_locked : forall st t st' r, RG st -> In (t_key (trigs st t), t) (reg st) ->
+  detach_locked st t = (st', r) -> RG st'.
+Proof.
+  intros st t st' r H Hreg Hd. pose proof (detach_locked_spec _ _ _ _ H Hreg Hd) as S. simpl in S.
+  destruct S as (_ & Hr & Ht & Hsf & Hsub & Hby & _). destruct Hsf as (_ & Hn & Ha & Hs & _).
+  set (l := t_subs (trigs st t)) in *.
+  assert (Hkey : forall k' t', In (k', t') (reg st) -> k' = t_key (trigs st t) -> t' = t).
+  { intros k' t' Hi ->. eapply reg_key_inj; eauto. }
+  assert (Hl : forall s, In s l -> s_tid (subs st s) = t).
+  { intros s Hi. apply (rg_tsubs _ H _ _ Hi). }
+  constructor.
+  - rewrite Hr. apply NoDup_unreg_key, (rg_keys _ H).
+  - intros k' t' Hi. rewrite Hr in Hi. apply In_unreg_key in Hi. destruct Hi as [Hi Hk].
+    destruct (rg_ent _ H _ _ Hi) as (A & B & C).
+    assert (t' <> t). { intro; subst t'. apply Hk. congruence. }
+    rewrite Ht, upd_other, Hn by auto. auto.
+  - intros s Hi. rewrite Hby in Hi. apply filter_In in Hi. destruct Hi as [Hi Hm].
+    apply negb_true_iff in Hm. rewrite Hsub, Hm.
+    destruct (rg_byid _ H s Hi) as (A & B & C & D).
+    assert (Hne : s_tid (subs st s) <> t).
+    { intro E. rewrite E in C. apply mem_nIn in Hm. auto. }
+    rewrite Ha, Hr, Ht, upd_other by auto. repeat split; auto.
+    apply In_unreg_key. split; auto. intro E. apply Hne. eapply Hkey; eauto.
+  - intros t' s Hi. rewrite Ht in Hi |- *. destruct (Nat.eq_dec t' t) as [->|Hne].
+    + rewrite upd_same in Hi. simpl in Hi. inversion Hi.
+    + rewrite upd_other in Hi |- * by auto.
+      destruct (rg_tsubs _ H _ _ Hi) as (A & B & C).
+      assert (Hm : mem s l = false). { apply mem_nIn. intro Hil. apply Hne. rewrite <- C. apply Hl; auto. }
+      rewrite Hsub, Hm, Hr, Hby. repeat split; auto.
+      * apply In_unreg_key. split; auto. intro E. apply Hne. eapply Hkey; eauto.
+      * apply filter_In. rewrite Hm. auto.
+  - rewrite Hby. apply NoDup_filter, (rg_nd_byid _ H).
+  - intros t'. rewrite Ht. destruct (Nat.eq_dec t' t) as [->|Hne].
+    + rewrite upd_same. simpl. constructor.
+    + rewrite upd_other by auto. apply (rg_nd_tsubs _ H).
+Qed.
+
+(* detaching every registered trigger (shutdownResolver) *)
+Lemma RG_detach_many : forall l st st' r, RG st ->
+  (forall t, In t l -> In t (map snd (reg st))) -> NoDup l ->
+  detach_many st l = (st', r) ->
+  RG st' /\ (forall k t, In (k, t) (reg st') -> In (k, t) (reg st) /\ ~ In t l).
+Proof.
+  induction l as [|a l]; simpl; intros st st' r H Hall Hnd Hd.
+  - inversion Hd; subst. split; auto.
+  - destruct (detach_locked st a) as [st1 r1] eqn:E1. destruct (detach_many st1 l) as [st2 r2] eqn:E2.
+    inversion Hd; subst; clear Hd. inversion Hnd; subst.
+    assert (Hreg : In (t_key (trigs st a), a) (reg st)).
+    { specialize (Hall a (or_introl eq_refl)). apply in_map_iff in Hall. destruct Hall as [[k t] [Hs Hi]]. simpl in Hs. subst t.
+      destruct (rg_ent _ H _ _ Hi) as (_ & B & _). rewrite B. exact Hi. }
+    pose proof (RG_detach_locked _ _ _ _ H Hreg E1) as H1'.
+    pose proof (detach_locked_spec _ _ _ _ H Hreg E1) as S. simpl in S. destruct S as (_ & Hr & _).
+    apply IHl in E2; auto.
+    + destruct E2 as [Hrg Hsub]. split; auto. intros k t Hi. apply Hsub in Hi. destruct Hi as [Hi Hn].
+      rewrite Hr in Hi. apply In_unreg_key in Hi. destruct Hi as [Hi Hk]. split; auto.
+      intros [Ea|?]; [|tauto]. subst t. destruct (rg_ent _ H _ _ Hi) as (_ & B & _). congruence.
+    + intros t Ht. specialize (Hall t (or_intror Ht)). apply in_map_iff in Hall. destruct Hall as [[k t'] [Hs Hi]]. simpl in Hs. subst t'.
+      apply in_map_iff. exists (k, t). split; auto. rewrite Hr. apply In_unreg_key. split; auto.
+      intro Ek. rewrite Ek in Hi.
+      assert (t = a) by (exact (reg_key_inj _ _ _ _ H Hi Hreg)). subst; tauto.
+Qed.
+
+Lemma NoDup_snoc : forall (x : nat) l, NoDup l -> ~ In x l -> NoDup (l ++ [x]).
+Proof.
+  induction l; simpl; intros.
+  - constructor; [simpl; tauto|constructor].
+  - inversion H; subst. constructor.
+    + rewrite in_app_iff. simpl. intros [?|[?|[]]]; [tauto|subst; tauto].
+    + apply IHl; tauto.
+Qed.
+
+Lemma NoDup_tids : forall (f : tid -> key) (r : list (key * tid)),
+  NoDup (map fst r) -> (forall k t, In (k, t) r -> f t = k) -> NoDup (map snd r).
+Proof.
+  induction r as [|[k t] r]; simpl; intros Hn Hf; [constructor|].
+  inversion Hn; subst. constructor.
+  - intro Hi. apply in_map_iff in Hi. destruct Hi as [[k' t'] [Hs Hi]]. simpl in Hs; subst t'.
+    assert (k' = k). { rewrite <- (Hf k' t) by auto. apply Hf; auto. }
+    subst. apply H1. apply in_map_iff. exists (k, t); auto.
+  - apply IHr; auto.
+Qed.
+
+Section RegStep.
+  Variable v : variant.
+  Variable flt : sid -> ev -> fres.
+  Variable wresf : sid -> ev -> wres.
+  Variable ev_bad : ev -> bool.
+  Variable hbfail : sid -> bool.
+  Notation exec := (exec v flt wresf ev_bad hbfail).
+  Notation step := (step v flt wresf ev_bad hbfail).
+
+  Lemma RG_init : RG init.
+  Proof. constructor; simpl; intros; try tauto; try constructor. Qed.
+
+  Lemma RG_add_join : forall st s k c hb t cx,
+    RG st -> ~ In s (allsubs st) -> lookup_reg k (reg st) = Some t ->
+    RG {| shut := shut st; rctx := rctx st; reg := reg st; byid := byid st ++ [s]; allsubs := s :: allsubs st;
+          subs := upd (subs st) s {| s_key := k; s_tid := t; s_conn := c; s_hb := hb; s_removed := false; s_closed := 0; s_ctxc := cx |};
+          ntrig := ntrig st;
+          trigs := upd (trigs st) t (trg_set_subs (trigs st t) (t_subs (trigs st t) ++ [s]));
+          threads := threads st; log := log st |}.
+  Proof.
+    intros st s k c hb t cx H Hf Hl. apply lookup_reg_In in Hl.
+    destruct (rg_ent _ H _ _ Hl) as (Htn & Htk & Hne).
+    assert (Hnb : ~ In s (byid st)) by (intro Hi; apply Hf, (rg_byid _ H s Hi)).
+    assert (Hnt : forall t', ~ In s (t_subs (trigs st t'))) by (intros t' Hi; apply Hnb, (rg_tsubs _ H _ _ Hi)).
+    constructor; simpl.
+    - apply (rg_keys _ H).
+    - intros k' t' Hi. destruct (rg_ent _ H _ _ Hi) as (A & B & C).
+      destruct (Nat.eq_dec t' t) as [->|Hd].
+      + rewrite upd_same. simpl. repeat split; auto. destruct (t_subs (trigs st t)); discriminate.
+      + rewrite upd_other by auto. auto.
+    - intros s' Hi. apply in_app_iff in Hi. destruct Hi as [Hi|[<-|[]]].
+      + assert (s' <> s) by (intro; subst; tauto).
+        rewrite upd_other by auto. destruct (rg_byid _ H s' Hi) as (A & B & C & D).
+        repeat split; auto.
+        destruct (Nat.eq_dec (s_tid (subs st s')) t) as [E|E].
+        * rewrite E, upd_same. simpl. apply in_or_app. left. rewrite <- E. auto.
+        * rewrite upd_other by auto. auto.
+      + rewrite upd_same. simpl. rewrite upd_same. simpl. repeat split; auto. apply in_or_app; simpl; auto.
+    - intros t' s' Hi. destruct (Nat.eq_dec t' t) as [->|Hd].
+      + rewrite upd_same in Hi |- *. simpl in Hi |- *. rewrite Htk. apply in_app_iff in Hi. destruct Hi as [Hi|[<-|[]]].
+        * destruct (rg_tsubs _ H _ _ Hi) as (A & B & C).
+          assert (s' <> s) by (intro; subst; tauto). rewrite upd_other by auto.
+          repeat split; auto. apply in_or_app; auto.
+        * rewrite upd_same. simpl. repeat split; auto. apply in_or_app; simpl; auto.
+      + rewrite upd_other in Hi |- * by auto. destruct (rg_tsubs _ H _ _ Hi) as (A & B & C).
+        assert (s' <> s) by (intro; subst; tauto). rewrite upd_other by auto.
+        repeat split; auto. apply in_or_app; auto.
+    - apply NoDup_snoc; auto. apply (rg_nd_byid _ H).
+    - intros t'. destruct (Nat.eq_dec t' t) as [->|Hd].
+      + rewrite upd_same. simpl. apply NoDup_snoc; auto. apply (rg_nd_tsubs _ H).
+      + rewrite upd_other by auto. apply (rg_nd_tsubs _ H).
+  Qed.
+
+  Lemma RG_add_new : forall st s k c hb cx,
+    RG st -> ~ In s (allsubs st) -> lookup_reg k (reg st) = None ->
+    RG {| shut := shut st; rctx := rctx st; reg := reg st ++ [(k, ntrig st)]; byid := byid st ++ [s]; allsubs := s :: allsubs st;
+          subs := upd (subs st) s {| s_key := k; s_tid := ntrig st; s_conn := c; s_hb := hb; s_removed := false; s_closed := 0; s_ctxc := cx |};
+          ntrig := S (ntrig st);
+          trigs := upd (trigs st) (ntrig st) {| t_key := k; t_subs := [s]; t_init := false; t_cancelled := false; t_done := false;
+                                              t_ulock := false; t_wg := []; t_started := 0 |};
+          threads := threads st; log := log st |}.
+  Proof.
+    intros st s k c hb cx H Hf Hl. apply lookup_reg_None in Hl.
+    assert (Hnb : ~ In s (byid st)) by (intro Hi; apply Hf, (rg_byid _ H s Hi)).
+    assert (Hreg : forall k' t', In (k', t') (reg st) -> t' <> ntrig st).
+    { intros k' t' Hi. destruct (rg_ent _ H _ _ Hi). lia. }
+    constructor; simpl.
+    - rewrite map_app. simpl. apply NoDup_snoc; auto. apply (rg_keys _ H).
+    - intros k' t' Hi. apply in_app_iff in Hi. destruct Hi as [Hi|[Hi|[]]].
+      + destruct (rg_ent _ H _ _ Hi) as (A & B & C). rewrite upd_other by (eapply Hreg; eauto). repeat split; auto.
+      + inversion Hi; subst. rewrite upd_same. simpl. repeat split; auto. discriminate.
+    - intros s' Hi. apply in_app_iff in Hi. destruct Hi as [Hi|[<-|[]]].
+      + assert (s' <> s) by (intro; subst; tauto). rewrite upd_other by auto.
+        destruct (rg_byid _ H s' Hi) as (A & B & C & D).
+        rewrite upd_other by (eapply Hreg; eauto). repeat split; auto. apply in_or_app; auto.
+      + rewrite upd_same. simpl. rewrite upd_same. simpl. repeat split; auto. apply in_or_app; simpl; auto.
+    - intros t' s' Hi. destruct (Nat.eq_dec t' (ntrig st)) as [->|Hd].
+      + rewrite upd_same in Hi |- *. simpl in Hi |- *. destruct Hi as [<-|[]].
+        rewrite upd_same. simpl. repeat split; auto; apply in_or_app; simpl; auto.
+      + rewrite upd_other in Hi |- * by auto. destruct (rg_tsubs _ H _ _ Hi) as (A & B & C).
+        assert (s' <> s) by (intro; subst; tauto). rewrite upd_other by auto.
+        repeat split; auto; apply in_or_app; auto.
+    - apply NoDup_snoc; auto. apply (rg_nd_byid _ H).
+    - intros t'. destruct (Nat.eq_dec t' (ntrig st)) as [->|Hd].
+      + rewrite upd_same. simpl. constructor; auto. constructor.
+      + rewrite upd_other by auto. apply (rg_nd_tsubs _ H).
+  Qed.
+
+  Lemma RG_shutdown : forall st st1 r, RG st ->
+    detach_many (st_flags st true (rctx st)) (map snd (reg st)) = (st1, r) ->
+    RG (st_byid (st_reg st1 []) []).
+  Proof.
+    intros st st1 r H Hd.
+    assert (H0 : RG (st_flags st true (rctx st))) by (eapply RG_ext; [|exact H]; reg_eq_tac).
+    apply RG_detach_many in Hd; auto.
+    - destruct Hd as [H1 Hsub].
+      assert (Hempty : forall k t, ~ In (k, t) (reg st1)).
+      { intros k t Hi. apply Hsub in Hi. simpl in Hi. destruct Hi as [Hi Hn]. apply Hn. apply in_map_iff. exists (k, t); auto. }
+      constructor; simpl.
+      + constructor.
+      + intros k t [].
+      + intros s [].
+      + intros t0 s0 Hi. exfalso. destruct (rg_tsubs _ H1 _ _ Hi) as (A & _). eapply Hempty; eauto.
+      + constructor.
+      + apply (rg_nd_tsubs _ H1).
+    - simpl. apply (NoDup_tids (fun t => t_key (trigs st t))); [apply (rg_keys _ H)|].
+      intros k t Hi. apply (rg_ent _ H _ _ Hi).
+  Qed.
+
+  Lemma RG_exec : forall st i x st1 push sp, RG st -> exec st i x = Some (st1, push, sp) -> RG st1.
+  Proof.
+    intros st i x st1 push sp H He.
+    exec_cases He;
+      try (eapply RG_ext; [|exact H]; reg_eq_tac; fail).
+    Show.
+  Admitted.
+End RegStep.
